@@ -1,6 +1,11 @@
 /-
-Router proofs, part 7: the `Router` (matcher tower + id map): representation relation, its
+Router proofs, part 7: the `Router` (outermost matcher + id map): representation relation, its
 preservation by every operation, and the consequences used by C01 / C02 / C17.
+
+Everything is proved once for an arbitrary outermost matcher `O` with laws `OL : MLaws O` whose
+`sat` is the flat specification (`TowerSpec`; lemmas `g_*`), then specialised to the
+specification-level tower (`RRepr`, `rrepr_*`); RouterTreeTop.lean specialises it to the tower over
+the real regex-tree model.
 -/
 import RioModel.Proofs.RouterSat
 import RioModel.Model.RouterOps
@@ -14,74 +19,86 @@ namespace Rio.Router
 /-- ids are pairwise distinct -/
 def NodupIds (L : List Route) : Prop := (L.map (·.id)).Nodup
 
+/-- every route built by `IntoRoute` can be found again by `remove` -/
+def WFRoute (r : Route) : Prop := r.ips ≠ some []
+
+/-- What the generic router proofs need of the outermost matcher: its layered `sat` is the flat
+specification and parsed routes are well-formed for it. -/
+structure TowerSpec (E : Env) {O : MOps} (OL : MLaws O) : Prop where
+  sat_eq : ∀ L r q, OL.sat L r q = sat E L r q
+  wf : ∀ r, WFRoute r → OL.wf r
+
 section
-variable (E : Env)
+variable (E : Env) {O : MOps} (OL : MLaws O) (hT : TowerSpec E OL)
 
 /-- Router state `S` represents the list `L` of live routes (each once, ids distinct). -/
-structure RRepr (S : Router E) (L : List Route) : Prop where
-  matcher : (towerLaws E).Repr S.matcher L
+structure RReprG (S : RouterG O) (L : List Route) : Prop where
+  matcher : OL.Repr S.matcher L
   ids : NodupIds L
   keyed : ∀ e ∈ S.routes, e.1 = e.2.id
   perm : (S.routes.map Prod.snd).Perm L
 
-theorem RRepr.uids {S : Router E} {L : List Route} (h : RRepr E S L) : UIds L :=
+omit E in
+theorem RReprG.uids {S : RouterG O} {L : List Route} (h : RReprG OL S L) : UIds L :=
   (nodupIds_uids h.ids).1
 
-theorem rrepr_empty : RRepr E (Router.empty E) [] :=
-  ⟨(towerLaws E).repr_empty, by simp [NodupIds], by intro e he; simp [Router.empty] at he,
-   by simp [Router.empty]⟩
+include hT
+
+theorem g_empty : RReprG OL (RouterG.empty O) [] :=
+  ⟨OL.repr_empty, by simp [NodupIds], by intro e he; simp [RouterG.empty] at he,
+   by simp [RouterG.empty]⟩
 
 /-! ### matching in a represented state -/
 
-theorem rrepr_mem_match (S : Router E) (L : List Route) (h : RRepr E S L) (q : Req) (r : Route) :
-    r ∈ S.matchReq E q ↔ r ∈ L ∧ sat E L r q = true := by
-  unfold Router.matchReq
-  rw [(towerLaws E).mem_match _ _ q r h.matcher h.uids, tower_sat]
+theorem g_mem_match (S : RouterG O) (L : List Route) (h : RReprG OL S L) (q : Req) (r : Route) :
+    r ∈ RouterG.matchReq O S q ↔ r ∈ L ∧ sat E L r q = true := by
+  unfold RouterG.matchReq
+  rw [OL.mem_match _ _ q r h.matcher h.uids, hT.sat_eq]
 
-theorem rrepr_nodup_match (S : Router E) (L : List Route) (h : RRepr E S L) (q : Req) :
-    (S.matchReq E q).Nodup ∧ ((S.matchReq E q).map (·.id)).Nodup := by
-  have hn := (towerLaws E).nodup_match _ _ q h.matcher h.uids
+theorem g_nodup_match (S : RouterG O) (L : List Route) (h : RReprG OL S L) (q : Req) :
+    (RouterG.matchReq O S q).Nodup ∧ ((RouterG.matchReq O S q).map (·.id)).Nodup := by
+  have hn := OL.nodup_match _ _ q h.matcher h.uids
   refine ⟨hn, ?_⟩
   apply UIds.nodup_ids _ hn
-  exact h.uids.mono (fun x hx => ((rrepr_mem_match E S L h q x).1 hx).1)
+  exact h.uids.mono (fun x hx => ((g_mem_match E OL hT S L h q x).1 hx).1)
 
-theorem sat_congr (L L' : List Route) (r : Route) (q : Req) (h : ∀ x, x ∈ L ↔ x ∈ L') :
+theorem g_sat_congr (L L' : List Route) (r : Route) (q : Req) (h : ∀ x, x ∈ L ↔ x ∈ L') :
     sat E L r q = sat E L' r q := by
-  rw [← tower_sat, ← tower_sat]; exact (towerLaws E).sat_congr L L' r q h
+  rw [← hT.sat_eq, ← hT.sat_eq]; exact OL.sat_congr L L' r q h
 
 /-- two states representing lists with the same elements answer every request alike -/
-theorem rrepr_match_perm (S S' : Router E) (L L' : List Route) (h : RRepr E S L) (h' : RRepr E S' L')
-    (hm : ∀ x, x ∈ L ↔ x ∈ L') (q : Req) : (S.matchReq E q).Perm (S'.matchReq E q) := by
-  rw [List.perm_ext_iff_of_nodup (rrepr_nodup_match E S L h q).1 (rrepr_nodup_match E S' L' h' q).1]
+theorem g_match_perm (S S' : RouterG O) (L L' : List Route) (h : RReprG OL S L) (h' : RReprG OL S' L')
+    (hm : ∀ x, x ∈ L ↔ x ∈ L') (q : Req) : (RouterG.matchReq O S q).Perm (RouterG.matchReq O S' q) := by
+  rw [List.perm_ext_iff_of_nodup (g_nodup_match E OL hT S L h q).1 (g_nodup_match E OL hT S' L' h' q).1]
   intro r
-  rw [rrepr_mem_match E S L h, rrepr_mem_match E S' L' h', hm r, sat_congr E L L' r q hm]
+  rw [g_mem_match E OL hT S L h, g_mem_match E OL hT S' L' h', hm r, g_sat_congr E OL hT L L' r q hm]
 
 /-- all routes stored anywhere in the traces (with repetitions) are the matching routes -/
-theorem rrepr_mem_rawTrace (S : Router E) (L : List Route) (h : RRepr E S L) (q : Req) (r : Route) :
-    r ∈ rawRoutesOfList (S.trace E q) ↔ r ∈ S.matchReq E q :=
-  (towerLaws E).mem_trace _ _ q r h.matcher h.uids
+theorem g_mem_rawTrace (S : RouterG O) (L : List Route) (h : RReprG OL S L) (q : Req) (r : Route) :
+    r ∈ rawRoutesOfList (RouterG.trace O S q) ↔ r ∈ RouterG.matchReq O S q :=
+  OL.mem_trace _ _ q r h.matcher h.uids
 
 /-- `get_routes_from_traces(trace_request(q))` lists exactly the matching routes -/
-theorem rrepr_mem_trace (S : Router E) (L : List Route) (h : RRepr E S L) (q : Req) (r : Route) :
-    r ∈ routesOfList (S.trace E q) ↔ r ∈ S.matchReq E q := by
+theorem g_mem_trace (S : RouterG O) (L : List Route) (h : RReprG OL S L) (q : Req) (r : Route) :
+    r ∈ routesOfList (RouterG.trace O S q) ↔ r ∈ RouterG.matchReq O S q := by
   rw [mem_routesOfList_iff L h.uids _ (fun y hy =>
-    ((rrepr_mem_match E S L h q y).1 ((rrepr_mem_rawTrace E S L h q y).1 hy)).1) r]
-  exact rrepr_mem_rawTrace E S L h q r
+    ((g_mem_match E OL hT S L h q y).1 ((g_mem_rawTrace E OL hT S L h q y).1 hy)).1) r]
+  exact g_mem_rawTrace E OL hT S L h q r
 
 /-- ... each once: it is a permutation of the match result -/
-theorem rrepr_trace_perm (S : Router E) (L : List Route) (h : RRepr E S L) (q : Req) :
-    (routesOfList (S.trace E q)).Perm (S.matchReq E q) := by
+theorem g_trace_perm (S : RouterG O) (L : List Route) (h : RReprG OL S L) (q : Req) :
+    (routesOfList (RouterG.trace O S q)).Perm (RouterG.matchReq O S q) := by
   rw [List.perm_ext_iff_of_nodup (nodup_of_map_nodup _ _ (routesOfList_nodupIds _))
-    (rrepr_nodup_match E S L h q).1]
-  intro r; exact rrepr_mem_trace E S L h q r
+    (g_nodup_match E OL hT S L h q).1]
+  intro r; exact g_mem_trace E OL hT S L h q r
 
-theorem rrepr_len (S : Router E) (L : List Route) (h : RRepr E S L) : S.len E = L.length := by
-  unfold Router.len
+theorem g_len (S : RouterG O) (L : List Route) (h : RReprG OL S L) : RouterG.len O S = L.length := by
+  unfold RouterG.len
   rw [← h.perm.length_eq, List.length_map]
 
-theorem rrepr_lookup (S : Router E) (L : List Route) (h : RRepr E S L) (id : String) (r : Route) :
-    S.getRouteById E id = some r ↔ (r ∈ L ∧ r.id = id) := by
-  unfold Router.getRouteById
+theorem g_lookup (S : RouterG O) (L : List Route) (h : RReprG OL S L) (id : String) (r : Route) :
+    RouterG.getRouteById O S id = some r ↔ (r ∈ L ∧ r.id = id) := by
+  unfold RouterG.getRouteById
   have hkeys : akeys S.routes = (S.routes.map Prod.snd).map (·.id) := by
     unfold akeys
     rw [List.map_map]
@@ -103,6 +120,7 @@ theorem rrepr_lookup (S : Router E) (L : List Route) (h : RRepr E S L) (id : Str
 
 /-! ### insert -/
 
+omit hT in
 theorem aupsert_fresh {K V : Type} [DecidableEq K] (f : V → V) (emp : V) (k : K) (l : List (K × V))
     (h : k ∉ akeys l) : aupsert f emp k l = l ++ [(k, f emp)] := by
   induction l with
@@ -113,8 +131,8 @@ theorem aupsert_fresh {K V : Type} [DecidableEq K] (f : V → V) (emp : V) (k : 
     have : ¬ ka = k := fun e => h.1 e.symm
     simp only [aupsert, this, if_false, ih h.2, List.cons_append]
 
-theorem rrepr_insert (S : Router E) (L : List Route) (r : Route) (h : RRepr E S L)
-    (hfresh : r.id ∉ L.map (·.id)) : RRepr E (S.insert E r) (r :: L) := by
+theorem g_insert (S : RouterG O) (L : List Route) (r : Route) (h : RReprG OL S L)
+    (hfresh : r.id ∉ L.map (·.id)) : RReprG OL (RouterG.insert O r S) (r :: L) := by
   have hids : NodupIds (r :: L) := by
     unfold NodupIds; simp only [List.map_cons, List.nodup_cons]; exact ⟨hfresh, h.ids⟩
   have hk : r.id ∉ akeys S.routes := by
@@ -124,18 +142,18 @@ theorem rrepr_insert (S : Router E) (L : List Route) (r : Route) (h : RRepr E S 
     have := h.keyed e he
     have hm : e.2 ∈ L := h.perm.mem_iff.1 (List.mem_map.mpr ⟨e, he, rfl⟩)
     exact List.mem_map.mpr ⟨e.2, hm, by rw [← this, hke]⟩
-  refine ⟨(towerLaws E).repr_insert _ _ r h.matcher (nodupIds_uids hids).1, hids, ?_, ?_⟩
+  refine ⟨OL.repr_insert _ _ r h.matcher (nodupIds_uids hids).1, hids, ?_, ?_⟩
   · intro e he
-    simp only [Router.insert, aupsert_fresh _ _ _ _ hk, List.mem_append, List.mem_singleton] at he
+    simp only [RouterG.insert, aupsert_fresh _ _ _ _ hk, List.mem_append, List.mem_singleton] at he
     rcases he with he | he
     · exact h.keyed e he
     · rw [he]
-  · simp only [Router.insert, aupsert_fresh _ _ _ _ hk, List.map_append, List.map_cons, List.map_nil]
+  · simp only [RouterG.insert, aupsert_fresh _ _ _ _ hk, List.map_append, List.map_cons, List.map_nil]
     exact (List.perm_append_comm.trans (List.Perm.cons _ h.perm))
 
 /-! ### remove -/
 
-theorem map_snd_filter_key (S : Router E) (L : List Route) (h : RRepr E S L) (p : String → Bool) :
+theorem map_snd_filter_key (S : RouterG O) (L : List Route) (h : RReprG OL S L) (p : String → Bool) :
     ((S.routes.filter (fun e => p e.1)).map Prod.snd).Perm (L.filter (fun r => p r.id)) := by
   have : (S.routes.filter (fun e => p e.1)).map Prod.snd =
       (S.routes.map Prod.snd).filter (fun r => p r.id) := by
@@ -148,33 +166,122 @@ theorem map_snd_filter_key (S : Router E) (L : List Route) (h : RRepr E S L) (p 
   rw [this]
   exact h.perm.filter _
 
+omit hT in
 theorem nodupIds_filter (L : List Route) (p : Route → Bool) (h : NodupIds L) : NodupIds (L.filter p) := by
   unfold NodupIds at h ⊢
   exact ((List.filter_sublist (l := L)).map _).nodup h
 
-theorem rrepr_remove (S : Router E) (L : List Route) (id : String) (h : RRepr E S L) :
-    RRepr E (S.remove E id).1 (L.filter (fun r => r.id != id)) := by
-  unfold Router.remove
+theorem g_remove (S : RouterG O) (L : List Route) (id : String) (h : RReprG OL S L) :
+    RReprG OL (RouterG.remove O id S).1 (L.filter (fun r => r.id != id)) := by
+  unfold RouterG.remove
   cases hl : alookup id S.routes with
   | none =>
     simp only [Option.isSome_none, Bool.false_eq_true, if_false]
     -- no live route has this id: nothing changes
     have hno : ∀ r ∈ L, r.id ≠ id := by
       intro r hr e
-      have := (rrepr_lookup E S L h id r).2 ⟨hr, e⟩
-      unfold Router.getRouteById at this
+      have := (g_lookup E OL hT S L h id r).2 ⟨hr, e⟩
+      unfold RouterG.getRouteById at this
       rw [hl] at this; cases this
     have : L.filter (fun r => r.id != id) = L := by
       rw [List.filter_eq_self]; intro r hr; simpa using hno r hr
     rw [this]; exact h
   | some r0 =>
     simp only [Option.isSome_some, if_true]
-    refine ⟨(towerLaws E).repr_remove _ _ id h.matcher h.uids, nodupIds_filter _ _ h.ids, ?_, ?_⟩
+    refine ⟨OL.repr_remove _ _ id h.matcher h.uids, nodupIds_filter _ _ h.ids, ?_, ?_⟩
     · intro e he; exact h.keyed e (List.mem_filter.mp he).1
-    · exact map_snd_filter_key E S L h (fun k => k != id)
+    · exact map_snd_filter_key E OL hT S L h (fun k => k != id)
 
-/-- every route built by `IntoRoute` can be found again by `remove` -/
-def WFRoute (r : Route) : Prop := r.ips ≠ some []
+theorem g_remove_some (S : RouterG O) (L : List Route) (r : Route) (h : RReprG OL S L)
+    (hr : r ∈ L) (hwf : WFRoute r) : (RouterG.remove O r.id S).2 = some r := by
+  unfold RouterG.remove
+  have := (g_lookup E OL hT S L h r.id r).2 ⟨hr, rfl⟩
+  unfold RouterG.getRouteById at this
+  simp only [this, Option.isSome_some, if_true]
+  exact OL.remove_some _ _ r.id r h.matcher h.uids hr (hT.wf r hwf) rfl
+
+theorem g_remove_none (S : RouterG O) (L : List Route) (id : String) (h : RReprG OL S L)
+    (hno : ∀ r ∈ L, r.id ≠ id) : (RouterG.remove O id S).2 = none := by
+  unfold RouterG.remove
+  cases hl : alookup id S.routes with
+  | none => simp
+  | some r0 =>
+    simp only [Option.isSome_some, if_true]
+    exact OL.remove_none _ _ id h.matcher hno
+
+/-! ### batch_remove, apply_change_set -/
+
+theorem g_batch (S : RouterG O) (L : List Route) (ids : List String) (h : RReprG OL S L) :
+    RReprG OL (RouterG.batchRemove O ids S) (L.filter (fun r => !ids.contains r.id)) := by
+  unfold RouterG.batchRemove
+  refine ⟨OL.repr_batch _ _ ids h.matcher, nodupIds_filter _ _ h.ids, ?_, ?_⟩
+  · intro e he; exact h.keyed e (List.mem_filter.mp he).1
+  · exact map_snd_filter_key E OL hT S L h (fun k => !ids.contains k)
+
+theorem g_insertAll (rs : List Route) : ∀ (S : RouterG O) (L : List Route), RReprG OL S L →
+    FreshAll rs L → RReprG OL (rs.foldl (fun S r => RouterG.insert O r S) S) (insertAll rs L) := by
+  induction rs with
+  | nil => intro S L h _; exact h
+  | cons r rs ih =>
+    intro S L h hf
+    simp only [List.foldl_cons, insertAll]
+    exact ih _ _ (g_insert E OL hT S L r h hf.1) hf.2
+
+theorem g_changeSet (S : RouterG O) (L : List Route) (added updated : List Route)
+    (removed : List String) (h : RReprG OL S L)
+    (hf : FreshAll (updated ++ added)
+      (L.filter (fun r => !(removed ++ updated.map (·.id)).contains r.id))) :
+    RReprG OL (RouterG.applyChangeSet O added updated removed S) (liveChangeSet added updated removed L) := by
+  unfold RouterG.applyChangeSet liveChangeSet
+  have h1 := g_batch E OL hT S L (removed ++ updated.map (·.id)) h
+  have split : ∀ (us as : List Route) (L0 : List Route), FreshAll (us ++ as) L0 →
+      FreshAll us L0 ∧ FreshAll as (insertAll us L0) := by
+    intro us
+    induction us with
+    | nil => intro as L0 hf; exact ⟨trivial, hf⟩
+    | cons u us ih =>
+      intro as L0 hf
+      have := ih as (u :: L0) hf.2
+      exact ⟨⟨hf.1, this.1⟩, this.2⟩
+  have hs := split updated added _ hf
+  have h2 := g_insertAll E OL hT updated _ _ h1 hs.1
+  exact g_insertAll E OL hT added _ _ h2 hs.2
+
+/-! ### build -/
+
+omit hT in
+theorem insertAll_eq (rs L : List Route) : insertAll rs L = rs.reverse ++ L := by
+  induction rs generalizing L with
+  | nil => rfl
+  | cons r rs ih => simp [insertAll, List.foldl_cons] at ih ⊢
+
+omit hT in
+theorem freshAll_of_nodupIds (rs : List Route) (h : NodupIds rs) : FreshAll rs [] := by
+  have key : ∀ (rs L : List Route), NodupIds (L.reverse ++ rs) → FreshAll rs L := by
+    intro rs
+    induction rs with
+    | nil => intro L _; trivial
+    | cons r rs ih =>
+      intro L hn
+      refine ⟨?_, ih (r :: L) (by simpa [List.reverse_cons, List.append_assoc] using hn)⟩
+      unfold NodupIds at hn
+      simp only [List.map_append, List.map_reverse, List.map_cons] at hn
+      rw [List.nodup_append] at hn
+      intro hin
+      exact hn.2.2 r.id (by simpa using hin) r.id (List.mem_cons_self ..) rfl
+  exact key rs [] (by simpa using h)
+
+theorem g_build (R : List Route) (h : NodupIds R) : RReprG OL (RouterG.build O R) R.reverse := by
+  have := g_insertAll E OL hT R (RouterG.empty O) [] (g_empty E OL hT) (freshAll_of_nodupIds R h)
+  rw [insertAll_eq, List.append_nil] at this
+  exact this
+
+end
+
+/-! ### the specification-level tower -/
+
+section
+variable (E : Env)
 
 theorem tower_wf (r : Route) (h : WFRoute r) : (towerLaws E).wf r := by
   have hscheme : Scheme.keysOf r ≠ some [] := by
@@ -204,87 +311,70 @@ theorem tower_wf (r : Route) (h : WFRoute r) : (towerLaws E).wf r := by
     unfold DateTime.keysOf; simp only; split <;> simp
   exact ⟨⟨⟨⟨⟨⟨trivial, hdt⟩, hheader⟩, hmethod⟩, h⟩, hhost⟩, hscheme⟩
 
+theorem towerSpec : TowerSpec E (towerLaws E) := ⟨tower_sat E, tower_wf E⟩
+
+/-- Router state `S` (specification-level tower) represents the list `L` of live routes. -/
+abbrev RRepr (S : Router E) (L : List Route) : Prop := RReprG (towerLaws E) S L
+
+theorem rrepr_empty : RRepr E (Router.empty E) [] := g_empty E (towerLaws E) (towerSpec E)
+
+theorem rrepr_mem_match (S : Router E) (L : List Route) (h : RRepr E S L) (q : Req) (r : Route) :
+    r ∈ S.matchReq E q ↔ r ∈ L ∧ sat E L r q = true := g_mem_match E _ (towerSpec E) S L h q r
+
+theorem rrepr_nodup_match (S : Router E) (L : List Route) (h : RRepr E S L) (q : Req) :
+    (S.matchReq E q).Nodup ∧ ((S.matchReq E q).map (·.id)).Nodup :=
+  g_nodup_match E _ (towerSpec E) S L h q
+
+theorem sat_congr (L L' : List Route) (r : Route) (q : Req) (h : ∀ x, x ∈ L ↔ x ∈ L') :
+    sat E L r q = sat E L' r q := g_sat_congr E _ (towerSpec E) L L' r q h
+
+theorem rrepr_match_perm (S S' : Router E) (L L' : List Route) (h : RRepr E S L) (h' : RRepr E S' L')
+    (hm : ∀ x, x ∈ L ↔ x ∈ L') (q : Req) : (S.matchReq E q).Perm (S'.matchReq E q) :=
+  g_match_perm E _ (towerSpec E) S S' L L' h h' hm q
+
+theorem rrepr_mem_rawTrace (S : Router E) (L : List Route) (h : RRepr E S L) (q : Req) (r : Route) :
+    r ∈ rawRoutesOfList (S.trace E q) ↔ r ∈ S.matchReq E q := g_mem_rawTrace E _ (towerSpec E) S L h q r
+
+theorem rrepr_mem_trace (S : Router E) (L : List Route) (h : RRepr E S L) (q : Req) (r : Route) :
+    r ∈ routesOfList (S.trace E q) ↔ r ∈ S.matchReq E q := g_mem_trace E _ (towerSpec E) S L h q r
+
+theorem rrepr_trace_perm (S : Router E) (L : List Route) (h : RRepr E S L) (q : Req) :
+    (routesOfList (S.trace E q)).Perm (S.matchReq E q) := g_trace_perm E _ (towerSpec E) S L h q
+
+theorem rrepr_len (S : Router E) (L : List Route) (h : RRepr E S L) : S.len E = L.length :=
+  g_len E _ (towerSpec E) S L h
+
+theorem rrepr_lookup (S : Router E) (L : List Route) (h : RRepr E S L) (id : String) (r : Route) :
+    S.getRouteById E id = some r ↔ (r ∈ L ∧ r.id = id) := g_lookup E _ (towerSpec E) S L h id r
+
+theorem rrepr_insert (S : Router E) (L : List Route) (r : Route) (h : RRepr E S L)
+    (hfresh : r.id ∉ L.map (·.id)) : RRepr E (S.insert E r) (r :: L) :=
+  g_insert E _ (towerSpec E) S L r h hfresh
+
+theorem rrepr_remove (S : Router E) (L : List Route) (id : String) (h : RRepr E S L) :
+    RRepr E (S.remove E id).1 (L.filter (fun r => r.id != id)) := g_remove E _ (towerSpec E) S L id h
+
 theorem rrepr_remove_some (S : Router E) (L : List Route) (r : Route) (h : RRepr E S L)
-    (hr : r ∈ L) (hwf : WFRoute r) : (S.remove E r.id).2 = some r := by
-  unfold Router.remove
-  have := (rrepr_lookup E S L h r.id r).2 ⟨hr, rfl⟩
-  unfold Router.getRouteById at this
-  simp only [this, Option.isSome_some, if_true]
-  exact (towerLaws E).remove_some _ _ r.id r h.matcher h.uids hr (tower_wf E r hwf) rfl
+    (hr : r ∈ L) (hwf : WFRoute r) : (S.remove E r.id).2 = some r :=
+  g_remove_some E _ (towerSpec E) S L r h hr hwf
 
 theorem rrepr_remove_none (S : Router E) (L : List Route) (id : String) (h : RRepr E S L)
-    (hno : ∀ r ∈ L, r.id ≠ id) : (S.remove E id).2 = none := by
-  unfold Router.remove
-  cases hl : alookup id S.routes with
-  | none => simp
-  | some r0 =>
-    simp only [Option.isSome_some, if_true]
-    exact (towerLaws E).remove_none _ _ id h.matcher hno
-
-/-! ### batch_remove, apply_change_set -/
+    (hno : ∀ r ∈ L, r.id ≠ id) : (S.remove E id).2 = none := g_remove_none E _ (towerSpec E) S L id h hno
 
 theorem rrepr_batch (S : Router E) (L : List Route) (ids : List String) (h : RRepr E S L) :
-    RRepr E (S.batchRemove E ids) (L.filter (fun r => !ids.contains r.id)) := by
-  unfold Router.batchRemove
-  refine ⟨(towerLaws E).repr_batch _ _ ids h.matcher, nodupIds_filter _ _ h.ids, ?_, ?_⟩
-  · intro e he; exact h.keyed e (List.mem_filter.mp he).1
-  · exact map_snd_filter_key E S L h (fun k => !ids.contains k)
-
-theorem rrepr_insertAll (rs : List Route) : ∀ (S : Router E) (L : List Route), RRepr E S L →
-    FreshAll rs L → RRepr E (rs.foldl (fun S r => S.insert E r) S) (insertAll rs L) := by
-  induction rs with
-  | nil => intro S L h _; exact h
-  | cons r rs ih =>
-    intro S L h hf
-    simp only [List.foldl_cons, insertAll]
-    exact ih _ _ (rrepr_insert E S L r h hf.1) hf.2
+    RRepr E (S.batchRemove E ids) (L.filter (fun r => !ids.contains r.id)) :=
+  g_batch E _ (towerSpec E) S L ids h
 
 theorem rrepr_changeSet (S : Router E) (L : List Route) (added updated : List Route)
     (removed : List String) (h : RRepr E S L)
     (hf : FreshAll (updated ++ added)
       (L.filter (fun r => !(removed ++ updated.map (·.id)).contains r.id))) :
-    RRepr E (S.applyChangeSet E added updated removed) (liveChangeSet added updated removed L) := by
-  unfold Router.applyChangeSet liveChangeSet
-  have h1 := rrepr_batch E S L (removed ++ updated.map (·.id)) h
-  have split : ∀ (us as : List Route) (L0 : List Route), FreshAll (us ++ as) L0 →
-      FreshAll us L0 ∧ FreshAll as (insertAll us L0) := by
-    intro us
-    induction us with
-    | nil => intro as L0 hf; exact ⟨trivial, hf⟩
-    | cons u us ih =>
-      intro as L0 hf
-      have := ih as (u :: L0) hf.2
-      exact ⟨⟨hf.1, this.1⟩, this.2⟩
-  have hs := split updated added _ hf
-  have h2 := rrepr_insertAll E updated _ _ h1 hs.1
-  exact rrepr_insertAll E added _ _ h2 hs.2
+    RRepr E (S.applyChangeSet E added updated removed) (liveChangeSet added updated removed L) :=
+  g_changeSet E _ (towerSpec E) S L added updated removed h hf
 
-/-! ### build -/
-
-theorem insertAll_eq (rs L : List Route) : insertAll rs L = rs.reverse ++ L := by
-  induction rs generalizing L with
-  | nil => rfl
-  | cons r rs ih => simp [insertAll, List.foldl_cons] at ih ⊢
-
-theorem freshAll_of_nodupIds (rs : List Route) (h : NodupIds rs) : FreshAll rs [] := by
-  have key : ∀ (rs L : List Route), NodupIds (L.reverse ++ rs) → FreshAll rs L := by
-    intro rs
-    induction rs with
-    | nil => intro L _; trivial
-    | cons r rs ih =>
-      intro L hn
-      refine ⟨?_, ih (r :: L) (by simpa [List.reverse_cons, List.append_assoc] using hn)⟩
-      unfold NodupIds at hn
-      simp only [List.map_append, List.map_reverse, List.map_cons] at hn
-      rw [List.nodup_append] at hn
-      intro hin
-      exact hn.2.2 r.id (by simpa using hin) r.id (List.mem_cons_self ..) rfl
-  exact key rs [] (by simpa using h)
-
-theorem rrepr_build (R : List Route) (h : NodupIds R) : RRepr E (Router.build E R) R.reverse := by
-  have := rrepr_insertAll E R (Router.empty E) [] (rrepr_empty E) (freshAll_of_nodupIds R h)
-  rw [insertAll_eq, List.append_nil] at this
-  exact this
+theorem rrepr_build (R : List Route) (h : NodupIds R) : RRepr E (Router.build E R) R.reverse :=
+  g_build E _ (towerSpec E) R h
 
 end
+
 end Rio.Router
